@@ -97,7 +97,11 @@ def cmd_worker(a) -> int:
     core.import_glotaran()
     eng = engine_module(a.engine)
     known = known_keys(a.prop)
-    indices = [int(x) for x in a.indices.split(",") if x != ""]
+    spec = a.indices
+    if spec.startswith("@"):
+        with open(spec[1:]) as f:
+            spec = f.read()
+    indices = [int(x) for x in spec.split(",") if x != ""]
     events_for = {int(x) for x in (a.events_for or "").split(",") if x != ""}
     t_start = time.time()
     # one run may take at most a quarter of the batch allowance (and never more than 300 s): a run that does not come
@@ -271,6 +275,17 @@ def cmd_replay(a) -> int:
 # ---------------------------------------------------------------------------
 
 
+def _indices_arg(idx, out):
+    """Run indices for a worker: inline when short, through a file when the list would not fit on a command line."""
+    text = ",".join(map(str, idx))
+    if len(text) < 20000:
+        return text
+    path = out + ".idx"
+    with open(path, "w") as f:
+        f.write(text)
+    return "@" + path
+
+
 def spawn_workers(
     prop, engine, tier, seed, indices, n_workers, wall, scratch, tag, hashseed=None, keep_events=False, events_for=(),
     extra_env=None,
@@ -289,7 +304,7 @@ def spawn_workers(
             "--prop", prop,
             "--tier", tier,
             "--seed", str(seed),
-            "--indices", ",".join(map(str, idx)),
+            "--indices", _indices_arg(idx, out),
             "--out", out,
             "--wall", str(int(wall)),
         ]
@@ -359,7 +374,7 @@ def collect(procs, wall):
                 out2 = out.replace(".jsonl", f".r{n}.jsonl")
                 err2 = open(err.name.replace(".err", f".r{n}.err"), "w")
                 cmd = list(w["cmd"])
-                cmd[cmd.index("--indices") + 1] = ",".join(map(str, rest))
+                cmd[cmd.index("--indices") + 1] = _indices_arg(rest, out2)
                 cmd[cmd.index("--out") + 1] = out2
                 p2 = subprocess.Popen(cmd, env=w["env"], stdout=err2, stderr=err2, cwd=VERIF)
                 queue.append({"p": p2, "out": out2, "err": err2, "idx": rest, "cmd": cmd, "env": w["env"], "respawns": n})
